@@ -22,7 +22,9 @@ META = {
     "{1, 1.5, 's', [1], None, another undefined; thorough also True, 2**70, (1,), {'a': 1}, b's'} x both orders is executed and compared with the table: a documented "
     "value, or jinja2.UndefinedError (exactly that class) whose message names the missing variable/attribute/hint.  The "
     "template-expressible cells are also rendered from template source in a sync and an async-enabled environment.  "
-    "Logging variants must additionally emit a log record naming the variable for printing and iteration.",
+    "Logging variants must additionally emit a log record naming the variable for printing and iteration.  A cross-type "
+    "grid pairs every undefined type with every other (including two distinct logging wrappers of one base) for ==, !=, "
+    "in-list, dict lookup and |unique.",
     "note": "Operand pairs where Python gives a built-in operand the last word ('s' % u, u in 's', u in 1/1.5/None) and "
     "pickle of the logging variants and pickle protocols 0/1 (Python refuses non-empty __slots__ there) are excluded.  Cells the docstrings do not spell out (len -> 0, == by "
     "type, hash, w in u -> False, DebugUndefined text for non-name origins) are frozen from the tree and tagged CALIBRATED.",
@@ -581,6 +583,164 @@ def shard(arg):
     return p
 
 
+# ----------------------------------------------------------------------------- two undefined values of different types
+
+# (base, logging wrapper?, factory call): the wrappers of two make_logging_undefined calls are different classes too
+XTYPES = [(b, False, 0) for b in BASES] + [(b, True, 1) for b in BASES] + [(b, True, 2) for b in BASES]
+XOPS = ["eq", "ne", "contains", "dict-lookup", "unique"]
+X_SRC = {"eq": "{{ a == b }}", "ne": "{{ a != b }}", "contains": "{{ a in [b] }}",
+         "dict-lookup": "{{ {b: 1}.get(a, 'absent') }}", "unique": "{{ [a, b]|unique|list|length }}"}
+
+
+def xname(t):
+    return t[0] + ("+logging#%d" % t[2] if t[1] else "")
+
+
+def model_is_proper_subclass(tb, ta):
+    """class hierarchy as documented: Chainable/Debug/Strict derive from Undefined, a logging wrapper from its base."""
+    if ta == tb or ta[1]:
+        return False  # nothing derives from a logging wrapper
+    if tb[1] and tb[0] == ta[0]:
+        return True
+    return ta[0] == "Undefined"
+
+
+class _OrderProbe:
+    log: list = []
+
+    def __init__(self, tag):
+        self.tag = tag
+
+    def __eq__(self, other):
+        _OrderProbe.log.append(self.tag)
+        return False
+
+    __hash__ = None  # type: ignore[assignment]
+
+
+def _list_contains_left_is_needle():
+    """ask Python itself which operand list.__contains__ puts on the left of ==."""
+    del _OrderProbe.log[:]
+    _OrderProbe("needle") in [_OrderProbe("item")]  # noqa: B015
+    return _OrderProbe.log[0] == "needle"
+
+
+def xref(ta, tb, op):
+    """a is of type ta (missing name x), b of type tb != ta (missing name y).
+
+    CALIBRATED (same rule as the same-type cells): undefined values are equal only to undefined values of their own type,
+    so two different undefined types are never equal; a strict operand refuses ==, != and hash.  __eq__ always answers
+    (True/False/raise), so the operand Python asks first decides: the right one when its class derives from the left's.
+    """
+    def strict(t):
+        return t[0] == "StrictUndefined"
+
+    def compare(left, right, lname, rname):
+        first, fname = (right, rname) if model_is_proper_subclass(right, left) else (left, lname)
+        return ("err", fname) if strict(first) else None
+
+    if op in ("eq", "ne"):
+        return compare(ta, tb, "a", "b") or ("val", op == "ne")
+    if op == "contains":
+        if _list_contains_left_is_needle():
+            e = compare(ta, tb, "a", "b")
+        else:
+            e = compare(tb, ta, "b", "a")
+        return e or ("val", False)
+    if op == "dict-lookup":  # {b: 1}.get(a, 'absent'): b is hashed first, then a; different types are never equal
+        return ("err", "b") if strict(tb) else ("err", "a") if strict(ta) else ("val", "absent")
+    if op == "unique":  # a is hashed first
+        return ("err", "a") if strict(ta) else ("err", "b") if strict(tb) else ("val", 2)
+    raise AssertionError(op)
+
+
+def xmake(t):
+    env, handler = make_env(t[0], t[1])
+    return env
+
+
+def xdirect(env, a, b, op):
+    try:
+        if op == "eq":
+            return ("val", a == b)
+        if op == "ne":
+            return ("val", a != b)
+        if op == "contains":
+            return ("val", a in [b])
+        if op == "dict-lookup":
+            return ("val", {b: 1}.get(a, "absent"))
+        return ("val", len(list(env.filters["unique"](env, [a, b]))))
+    except Exception as e:  # noqa: BLE001
+        return ("exc", type(e), str(e))
+
+
+SCRIPT_X = (
+    "from checks import c21\n"
+    "ta, tb, op, route = %r\n"
+    "ea, eb = c21.xmake(ta), c21.xmake(tb)\n"
+    "a, b = ea.undefined(name='x'), eb.undefined(name='y')\n"
+    "print('a:', [c.__name__ for c in type(a).__mro__[:-1]], ' b:', [c.__name__ for c in type(b).__mro__[:-1]])\n"
+    "print('direct  :', c21.xdirect(ea, a, b, op))\n"
+    "print('template:', c21.X_SRC[op], '->', c21.xtemplate(ea, a, b, op, False))\n"
+    "print('expected:', c21.xref(ta, tb, op))\n"
+)
+
+
+def xtemplate(env_a, a, b, op, is_async):
+    from jinja2 import Environment
+
+    env = env_a if not is_async else Environment(undefined=env_a.undefined, enable_async=True)
+    try:
+        t = env.from_string(X_SRC[op])
+        if is_async:
+            return ("val", asyncio.run(t.render_async(a=a, b=b)))
+        return ("val", t.render(a=a, b=b))
+    except Exception as e:  # noqa: BLE001
+        return ("exc", type(e), str(e))
+
+
+def cross_shard(ai):
+    from jinja2 import UndefinedError
+
+    ta = XTYPES[ai]
+    p = core.Part()
+    for tb in XTYPES:
+        if tb == ta:
+            continue
+        for op in XOPS:
+            spec = xref(ta, tb, op)
+            for route in ("direct", "template", "template-async"):
+                env_a, env_b = xmake(ta), xmake(tb)
+                a, b = env_a.undefined(name="x"), env_b.undefined(name="y")
+                if type(a) is type(b):
+                    raise core.HarnessError(f"{ta} and {tb} gave the same class")
+                p.evals += 1
+                if route == "direct":
+                    out = xdirect(env_a, a, b, op)
+                else:
+                    out = xtemplate(env_a, a, b, op, route == "template-async")
+                    if out[0] == "val":
+                        out = ("val", {"True": True, "False": False, "2": 2, "1": 1}.get(out[1], out[1]))
+                okind = repr(out[1]) if out[0] == "val" else out[1].__name__
+                p.sig(("cross", xname(ta), xname(tb), op, okind))
+                why = None
+                if spec[0] == "err":
+                    want_msg = "'x' is undefined" if spec[1] == "a" else "'y' is undefined"
+                    if out[0] != "exc":
+                        why = f"expected UndefinedError ({want_msg}), got value {out[1]!r}"
+                    elif out[1] is not UndefinedError or out[2] != want_msg:
+                        why = f"expected UndefinedError ({want_msg}), got {out[1].__name__}: {out[2]}"
+                elif out[0] != "val" or type(out[1]) is not type(spec[1]) or out[1] != spec[1]:
+                    why = f"expected {spec[1]!r}, got {out[1:] if out[0] == 'val' else (out[1].__name__, out[2])!r}"
+                if why:
+                    p.violation(f"C21/cross-type/{op}", {
+                        "msg": f"{route}: a = {xname(ta)}(name='x'), b = {xname(tb)}(name='y'), {X_SRC[op]}: {why}",
+                        "script": SCRIPT_X % ((ta, tb, op, route),)})
+    p.sample({"kind": "two undefined types", "a": xname(ta), "b": xname(XTYPES[(ai + 1) % len(XTYPES)]),
+              "source": X_SRC["eq"], "expected": [str(i) for i in xref(ta, XTYPES[(ai + 1) % len(XTYPES)], "eq")]}, cap=1)
+    return p
+
+
 def run(ctx: core.Ctx):
     core.import_all_jinja()
     ctx.rule = ("full grid, nothing thinned: 8 undefined types x 5 origins x (2 ways of obtaining x 200+ direct cells + 2 "
@@ -602,12 +762,17 @@ def run(ctx: core.Ctx):
         "attribute/key for missing attribute/item; contains the index for a missing list index; equals the hint for hint=",
         "for binary operators between two undefined values of the same type the left operand (for `in`: the container) is "
         "the one whose name the error carries (Python data model order)",
-        "the other undefined operand is of the same type as the one under test (same environment)",
+        "in the main grid the other undefined operand is of the same type as the one under test (same environment); a "
+        "separate cross-type grid pairs every undefined type with every other one (4 bases, their logging wrappers, and a "
+        "second wrapper class from another make_logging_undefined call) for ==, !=, `in [b]`, dict lookup and |unique, "
+        "direct and from template source (sync + async): CALIBRATED different undefined types are never equal; the operand "
+        "Python asks first (the right one when its class derives from the left's) raises if it is strict",
         "logging variants: only printing and iteration are required to log (documented); other log traffic is not compared",
         "Python-level attribute access uses the names foo, _x, __x, __x_, x__ (ordinary: UndefinedError / self for the "
         "chainable type) and __x__ (true dunder: AttributeError on every type, CALIBRATED from the comment in __getattr__)",
         "int/float filters are not used (their own contract is C23); int()/float()/complex() are exercised directly",
     ]
+    ctx.pmap(cross_shard, list(range(len(XTYPES))))
     wkinds = WKINDS if ctx.quick else WKINDS_THOROUGH
     ctx.pmap(shard, [(ti, origin, wkinds) for ti in range(len(TYPES)) for origin in ORIGINS])
     # one defect, one signature: a deviation that shows on a base type and on its logging variant keeps the base
@@ -630,4 +795,5 @@ def run(ctx: core.Ctx):
     ctx.cov["bounds"] = {"types": [tname(*t) for t in TYPES], "origins": ORIGINS, "other_operands": wkinds,
                          "direct_cells_per_object": len(list(direct_cells(wkinds))),
                          "template_cells_per_environment": len(list(template_cells(wkinds))),
-                         "pickle_protocols": PICKLE_PROTOCOLS}
+                         "pickle_protocols": PICKLE_PROTOCOLS,
+                         "cross_type_pairs": len(XTYPES) * (len(XTYPES) - 1), "cross_type_operations": XOPS}
